@@ -18,7 +18,9 @@ def funcs : List (String × String) := [
   ("internal/dmarc/verifier.go:type errPanic", "d2d64e3e18742109"),
   ("internal/dmarc/verifier.go:type verifyData", "af02233da37756e2"),
   ("internal/msgpipeline/check_runner.go:checkRunner.applyResults", "7aa5b1a3a230ef0d"),
-  ("internal/msgpipeline/check_runner.go:checkRunner.checkBody", "772d1186a2a91890")
+  ("internal/msgpipeline/check_runner.go:checkRunner.checkBody", "772d1186a2a91890"),
+  ("internal/msgpipeline/msgpipeline.go:msgpipelineDelivery.Body", "7dc627c0fe03620b"),
+  ("internal/msgpipeline/msgpipeline.go:msgpipelineDelivery.BodyNonAtomic", "9ef190be8c536e0f")
 ]
 
 end MaddyVerif.Expect.FuncSkelC07
